@@ -25,7 +25,7 @@ from typing import Any
 from ..engine.normalize import inline_helpers, positional
 from ..engine.report import AnalysisError, Run
 from ..engine.resolver import FuncInfo, Program, body_walk
-from ..engine.sympath import Path, sym_block, sym_paths
+from ..engine.sympath import Path, follower, sym_block, sym_paths
 from ..engine.terms import Poly, TermEval
 from ..engine.util import find_calls, method_call, u
 
@@ -45,7 +45,7 @@ RECV = f"{PROPS}.received_samples"
 
 def _paths(prog: Program, fn: FuncInfo) -> list[Path]:
     """Symbolic paths of `fn` with simple private helpers spliced in (locals substituted away)."""
-    return sym_paths(inline_helpers(prog, fn))
+    return sym_paths(inline_helpers(prog, fn), follow=follower(prog, fn))
 
 
 def _ext(prog: Program, mod: Any, call: ast.AST) -> str:
@@ -116,7 +116,7 @@ def check_edge(run: Run, prog: Program) -> None:  # noqa: C901
     mod = fn.module
     T = fn.params[1]
     norm_node = inline_helpers(prog, fn)
-    paths = sym_paths(norm_node)
+    paths = sym_paths(norm_node, follow=follower(prog, fn))
     if not paths:
         raise AnalysisError(f"{fn.qual}: no path found")
     te = TermEval()
@@ -233,12 +233,23 @@ def check_edge(run: Run, prog: Program) -> None:  # noqa: C901
 
 def check_filter(run: Run, prog: Program) -> None:
     sites = prog.attr_call_sites("add_sample")
+    rs_qual = f"{MOD}:_StreamingHelper._receive_samples"
+
+    def only_from_receive_loop(f: FuncInfo, seen: frozenset[str] = frozenset()) -> bool:
+        """`f` is the receive loop or a private helper all of whose callers are (transitively)."""
+        if f.qual == rs_qual:
+            return True
+        if f.qual in seen or not f.name.startswith("_") or f.name.startswith("__"):
+            return False
+        callers = prog.callers(f.qual)
+        return bool(callers) and all(only_from_receive_loop(c, seen | {f.qual}) for c, _ in callers)
+
     n = 0
     for fn, call in sites:
         if not fn.module.name.endswith("_resampling"):
             continue
         n += 1
-        ok = fn.qual == f"{MOD}:_StreamingHelper._receive_samples" and u(call.func.value) == "self._helper"  # type: ignore[union-attr]
+        ok = only_from_receive_loop(fn) and u(call.func.value) == "self._helper"  # type: ignore[union-attr]
         run.check(ok, "C08.FILTER", fn.qual, call, "samples are added to a resampling buffer from "
                   "somewhere else than the filtered receive loop", node=call, file=fn.file)
     if n != 1:
@@ -250,7 +261,7 @@ def check_filter(run: Run, prog: Program) -> None:
     if len(loops) != 1 or not isinstance(loops[0].target, ast.Name):
         raise AnalysisError(f"{rs.qual}: receive loop not found")
     sv = loops[0].target.id
-    for p, _st in sym_block(loops[0].body):
+    for p, _st in sym_block(loops[0].body, follow=follower(prog, rs)):
         adds = p.calls(lambda c: method_call(c, "self._helper", "add_sample"))
         is_none = p.outcome(("is", frozenset({f"{sv}.value", "None"})))
         is_nan = p.outcome(("truthy", f"{sv}.value.isnan()"))
@@ -292,12 +303,13 @@ def check_buf(run: Run, prog: Program) -> None:
     for m, s in writers:
         run.analysed(m.qual)
         v = s.value
-        ok = isinstance(v, ast.Call) and u(v.func) == "deque" and any(k.arg == "maxlen" for k in v.keywords)
+        da = positional(v, ["iterable", "maxlen"]) if isinstance(v, ast.Call) else {}
+        ok = isinstance(v, ast.Call) and u(v.func) == "deque" and "maxlen" in da
         if ok and m.name != "__init__":
-            ok = [u(a) for a in v.args] == ["self._buffer"]
+            ok = u(da.get("iterable")) == "self._buffer"
         elif ok:
-            kws = {k.arg: u(k.value) for k in v.keywords}
-            ok = not v.args and set(kws) == {"maxlen"} and kws["maxlen"] in (
+            kws = {"maxlen": u(da["maxlen"])}
+            ok = "iterable" not in da and kws["maxlen"] in (
                 f"{m.params[2] if len(m.params) > 2 else 'config'}.initial_buffer_len", f"{CONF}.initial_buffer_len")
         run.check(ok, "C08.BUF", m.qual, s,
                   "the buffer is not a bounded deque (re-created from its old content on resize)",
